@@ -88,6 +88,12 @@ def prove(ctx, spec):
         ctx.obligations.update(res)
         if not pok:
             errs.append("property file %s: %s\n%s" % (spec.props_file, res, out[-2000:]))
+    if ok and ctx.tier == "thorough" and not errs:
+        from vlib import coq_chk
+        cok, summ, tail = coq_chk(spec.subsys, spec.props_file)
+        ctx.cov["coqchk"] = summ
+        if not cok:
+            errs.append("coqchk rejected %s: %s\n%s" % (spec.props_file, summ, tail))
     dirs = [spec.subsys] + __import__("vlib").coq_deps_dirs(spec.subsys)
     hits = grep_forbidden(dirs)
     if hits:
